@@ -206,3 +206,15 @@ def postorder(tr, start):
         return []
     out = [x for k in tr["kids"] for x in postorder(k, start)]
     return out + ([tr["p"]] if tr["p"] != start else [])
+
+
+def short_strings(g, maxlen, cap=4000):
+    """all token strings over the grammar's terminals up to a length (exhaustive small inputs)"""
+    import itertools
+    out = []
+    for n in range(0, maxlen + 1):
+        for w in itertools.product(g.terms, repeat=n):
+            out.append(list(w))
+            if len(out) >= cap:
+                return out
+    return out
